@@ -139,4 +139,31 @@ def T.depths : T → List (Nat × Rat)
 
 def T.tips (t : T) : List Nat := t.depths.map (·.1)
 
+/-! ### a computable certificate (evaluated by the driver on every instance) -/
+
+/-- decidable form of "`(i, j)` is a cherry of `d`": the pendant lengths are the unclamped NJ branch
+lengths, the parent's distances are `new_dists`, and all equations of a cherry hold exactly -/
+def cherryB (d : Mat) (L i j : Nat) : Bool :=
+  decide (i ≠ j) && decide (i < L) && decide (j < L) &&
+  decide (0 ≤ (1 / 2) * (get d i j + distDiff d L i j)) && decide (0 ≤ (1 / 2) * (get d i j - distDiff d L i j)) &&
+  (List.range L).all fun k => (decide (k = i) || decide (k = j)) ||
+    (decide (get d i k = (1 / 2) * (get d i j + distDiff d L i j) + newDist d i j k) &&
+     decide (get d j k = (1 / 2) * (get d i j - distDiff d L i j) + newDist d i j k))
+
+/-- every pair selected by the loop is a cherry of the current matrix -/
+def njCheck (sel : PT → Nat × Nat) : Nat → PT → Bool
+  | 0, pt => decide (pt.L ≤ 3)
+  | fuel + 1, pt =>
+    if pt.L ≤ 3 then true
+    else cherryB pt.d pt.L (sel pt).1 (sel pt).2 && njCheck sel fuel (join pt (sel pt).1 (sel pt).2)
+
+/-- triangle inequality on the last three nodes -/
+def tri3B (d : Mat) : Bool :=
+  decide (get d 1 2 ≤ get d 0 1 + get d 0 2) && decide (get d 0 2 ≤ get d 0 1 + get d 1 2) &&
+  decide (get d 0 1 ≤ get d 0 2 + get d 1 2)
+
+/-- the whole certificate for `nj n d` -/
+def njCertified (n : Nat) (d : Mat) : Bool :=
+  njCheck pickPair n (star n d) && tri3B (njLoop pickPair n (star n d)).d
+
 end CogentModel.NJ
